@@ -126,6 +126,10 @@ func classifyErr(err error) string {
 	if err == nil {
 		return "nil"
 	}
+	var re *simkernel.RecvErr
+	if errors.As(err, &re) {
+		return "err" // a hard receive failure, whatever errno the transport reported for it
+	}
 	var en syscall.Errno
 	if errors.As(err, &en) {
 		return "errno:" + strconv.FormatUint(uint64(en), 10)
